@@ -113,6 +113,21 @@ fn do_op(inj: &mut InjectorPP, syms: &Syms, op: &str) -> String {
             let tf: F1 = unsafe { std::mem::transmute(a as *const ()) };
             match t[2] {
                 "raw" | "clo" => inj.when_called(injectorpp::func!(fn (tf)(u64) -> u64)).will_execute_raw(fake_ptr(t[2], t[3].parse().unwrap())),
+                // the kernel ignores every hint and answers with one block whose address is far away (a multiple of 4 GiB plus a few MiB from the
+                // function: equal to a near address modulo 2^32): every placement is out of reach, the installation must fail cleanly
+                "rawalias" => {
+                    let mut x = 0u64;
+                    for k in [3u64, 5, 7, 9, 11] {
+                        let c = (a & !0xfff).wrapping_add(k << 32).wrapping_add(0x400000);
+                        let p = unsafe { interpose::raw_mmap(c as *mut libc::c_void, 4096, libc::PROT_NONE, libc::MAP_PRIVATE | libc::MAP_ANONYMOUS | libc::MAP_FIXED_NOREPLACE, -1, 0) };
+                        if p as u64 == c { unsafe { interpose::raw_munmap(p, 4096); } x = c; break; }
+                    }
+                    interpose::MMAP_ARG.store(x as i64, SeqCst);
+                    interpose::MMAP_MODE.store(5, SeqCst);
+                    let r = catch_unwind(AssertUnwindSafe(|| inj.when_called(injectorpp::func!(fn (tf)(u64) -> u64)).will_execute_raw(fake_ptr("raw", 0))));
+                    interpose::MMAP_MODE.store(0, SeqCst);
+                    if let Err(e) = r { std::panic::resume_unwind(e) }
+                }
                 "fake" => inj.when_called(injectorpp::func!(fn (tf)(u64) -> u64)).will_execute(fake_pair(t[3].parse().unwrap())),
                 "unc" => unsafe {
                     let fk: F1 = std::mem::transmute(targets::addr_of(&format!("fk{}", t[3])) as *const ());
